@@ -21,3 +21,101 @@ def sudoku_near_complete(k: int = 4, cells=((0, 0), (0, 1), (1, 0), (4, 4), (4, 
             b[r, c] = 0
         boards.append(b)
     return DatabaseGenerator(np.stack(boards))
+
+
+def _pick(key: Any, n: int) -> Any:
+    import jax
+
+    return jax.random.randint(key, (), 0, n)
+
+
+def all_graphs(num_nodes: int = 4) -> Any:
+    """Generator whose range is ALL undirected loop-free graphs on `num_nodes` nodes (64 for 4)."""
+    import jax.numpy as jnp
+
+    from jumanji.environments.logic.graph_coloring.generator import Generator
+
+    pairs = [(i, j) for i in range(num_nodes) for j in range(i + 1, num_nodes)]
+    table = np.zeros((2 ** len(pairs), num_nodes, num_nodes), bool)
+    for g in range(2 ** len(pairs)):
+        for b, (i, j) in enumerate(pairs):
+            if (g >> b) & 1:
+                table[g, i, j] = table[g, j, i] = True
+    tab = jnp.asarray(table)
+
+    class AllGraphs(Generator):
+        n_instances = len(table)
+
+        @property
+        def num_nodes(self) -> int:
+            return num_nodes
+
+        def __call__(self, key: Any) -> Any:
+            return tab[_pick(key, len(table))]
+
+    return AllGraphs()
+
+
+def all_mines(num_rows: int = 3, num_cols: int = 3, num_mines: int = 2) -> Any:
+    """Generator whose range is ALL placements of `num_mines` distinct mines (36 for 3x3, 2 mines)."""
+    import jax.numpy as jnp
+
+    from jumanji.environments.logic.minesweeper.generator import Generator
+
+    combos = np.array(list(itertools.combinations(range(num_rows * num_cols), num_mines)), np.int32)
+    tab = jnp.asarray(combos)
+
+    class AllMines(Generator):
+        n_instances = len(combos)
+
+        def generate_flat_mine_locations(self, key: Any) -> Any:
+            return tab[_pick(key, len(combos))]
+
+    return AllMines(num_rows, num_cols, num_mines)
+
+
+def knapsack_grid(num_items: int = 3, total_budget: float = 1.0, alphabet=(0.2, 0.5, 0.9)) -> Any:
+    """Generator whose range is all weight vectors over `alphabet`^num_items (values = reversed weights)."""
+    import jax.numpy as jnp
+
+    from jumanji.environments.packing.knapsack.generator import Generator
+    from jumanji.environments.packing.knapsack.types import State
+
+    ws = np.array(list(itertools.product(alphabet, repeat=num_items)), np.float32)
+    tabw = jnp.asarray(ws)
+    tabv = jnp.asarray(ws[:, ::-1].copy())
+
+    class Grid(Generator):
+        n_instances = len(ws)
+
+        def __call__(self, key: Any) -> Any:
+            import jax
+
+            key, sub = jax.random.split(key)
+            i = _pick(sub, len(ws))
+            return State(weights=tabw[i], values=tabv[i], packed_items=jnp.zeros(num_items, bool),
+                         remaining_budget=jnp.array(total_budget, float), key=key)
+
+    return Grid(num_items, total_budget)
+
+
+def distinct_instance_keys(env: Any, fields, want: int, max_keys: int = 8192):
+    """Deterministic walk over reset keys 0,1,2,...: the first key producing each distinct instance
+    (identified by the listed state fields). Returns (keys, n_distinct)."""
+    import jax
+    import jax.numpy as jnp
+
+    reset = jax.jit(jax.vmap(env.reset))
+    seen = {}
+    k0 = 0
+    while k0 < max_keys and len(seen) < want:
+        ks = list(range(k0, k0 + 256))
+        st, _ = reset(jnp.stack([jax.random.PRNGKey(k) for k in ks]))
+        parts = [np.asarray(getattr(st, f)).reshape(len(ks), -1) for f in fields]
+        rows = np.concatenate([p.astype(np.float64) for p in parts], axis=1)
+        for i, k in enumerate(ks):
+            b = rows[i].tobytes()
+            if b not in seen:
+                seen[b] = k
+        k0 += 256
+    return sorted(seen.values()), len(seen)
